@@ -27,9 +27,11 @@ EXTENDS Integers, Sequences, SequencesExt, TLC
 AllZero(bs) == \A i \in 1..Len(bs) : bs[i] = 0
 MinI(a, b) == IF a < b THEN a ELSE b
 
-(* ---- byte sources: [bytes, pos, calls, fallible, failAt, partial, sticky] ---- *)
-(* byte number p (0-based, absolute) of the source is bytes[p mod Len]; failAt = 0: never fails *)
-SrcTake(src, n) == TLCEval([i \in 1..n |-> src.bytes[((src.pos + i - 1) % Len(src.bytes)) + 1]])
+(* ---- byte sources: [bytes, lead, pos, calls, fallible, failAt, partial, sticky] ---- *)
+(* byte number p (0-based, absolute) of the source is 0 for p < lead and bytes[(p - lead) mod Len] afterwards; *)
+(* failAt = 0: never fails                                                                                   *)
+SrcByte(src, p) == IF p < src.lead THEN 0 ELSE src.bytes[((p - src.lead) % Len(src.bytes)) + 1]
+SrcTake(src, n) == TLCEval([i \in 1..n |-> SrcByte(src, src.pos + i - 1)])
 SrcFails(src) == LET c == src.calls + 1 IN
                  src.fallible /\ src.failAt # 0 /\ (IF src.sticky THEN c >= src.failAt ELSE c = src.failAt)
 (* one fill_bytes / try_fill_bytes call of n bytes *)
@@ -56,8 +58,17 @@ Redraw(src, slen, log, k) ==
   ELSE IF AllZero(r.bytes) THEN [ok |-> FALSE, gen |-> <<"loops">>, src |-> r.src, log |-> Append(log, <<TRUE, r.n>>)]
   ELSE [ok |-> TRUE, gen |-> <<"verbatim", r.bytes>>, src |-> r.src, log |-> Append(log, <<TRUE, r.n>>)]
 
+(* a source that never fails and starts with a long run of zero bytes: the whole all-zero blocks of that *)
+(* run are redrawn one after the other, however many they are; beyond MaxDraws \div 2 of them they are  *)
+(* taken in one step here (one aggregated log entry), so that the bound above is about the rest          *)
+LeadBlocks(src, slen) ==
+  IF (~src.fallible \/ src.failAt = 0) /\ src.pos < src.lead THEN (src.lead - src.pos) \div slen ELSE 0
 FromRngD(cls, slen, flen, src) ==
-  IF cls = "redraw" THEN Redraw(src, slen, <<>>, 1)
+  IF cls = "redraw"
+  THEN LET z == LeadBlocks(src, slen) IN
+       IF z > MaxDraws \div 2
+       THEN Redraw([src EXCEPT !.pos = @ + z * slen, !.calls = @ + z], slen, <<<<TRUE, z * slen>>>>, 1)
+       ELSE Redraw(src, slen, <<>>, 1)
   ELSE LET r == SrcFill(src, flen) IN
        IF ~r.ok THEN [ok |-> FALSE, gen |-> <<"none">>, src |-> r.src, log |-> <<<<FALSE, r.n>>>>]
        ELSE [ok |-> TRUE, gen |-> IF cls = "full" THEN <<"full", r.bytes>> ELSE FromSeedD(cls, r.bytes),
